@@ -576,6 +576,16 @@ func runC02(c *h.Ctx) {
 			try(strings.ReplaceAll(form, "%s", nt))
 		}
 	}
+	// (c1) every numeric literal also where only an integer may stand (precision,
+	// scale, level): whatever is accepted there is printed so that it is accepted again
+	for i, nt := range []string{"0", "6", "9223372036854775807", "9223372036854775808", "99999999999999999999", "1000000000000000000000", "1_000_000_000_000_000_000_000_000", "123456789012345678901234567890", "0x7fffffffffffffff", "0xffffffffffffffffffff", "1e3", "1.0", "2147483648", "0b1" + strings.Repeat("0", 70)} {
+		if !c.Mine(i) {
+			continue
+		}
+		for _, form := range []string{"$.a.time(%s)", "$.a.time_tz(%s)", "$.a.timestamp(%s)", "$.a.timestamp_tz(%s)", "$.a.decimal(%s)", "$.a.decimal(10,%s)", "$.a.decimal(10,-%s)", "$.a.decimal(%s,2)", "$.**{%s}", "$.**{1 to %s}", "$.a.decimal(+%s)"} {
+			try(strings.ReplaceAll(form, "%s", nt))
+		}
+	}
 	// (c2) a path that is one string literal whose content reads like a path, a
 	// JSON text, a number (what a reader "helpfully" decoding quoted values destroys)
 	for i, lit := range []string{"$.a", "$", "1", "true", "null", "strict $.a[*] ? (@ > 1)", "$.a == 1", "\"x\"", "{\"a\":1}", "[1]", "lax $", "$\"v\"", "1e3", "", " $.a "} {
@@ -684,8 +694,20 @@ func integralNum(n *gen.N) bool {
 // printerCauses lists the recorded printer defects whose trigger is present in the tree.
 func printerCauses(root *gen.N) []string {
 	k1, k2 := false, false
+	// (a decimal literal where only an integer may stand - a precision, a scale -
+	// is not the literal of the recorded finding: no accepted path has one)
+	intOnly := map[*gen.N]bool{}
 	root.Walk(func(n *gen.N) {
-		if integralNum(n) {
+		if n.K == gen.KDatetime || n.K == gen.KDecimal {
+			for _, arg := range []*gen.N{n.A, n.B} {
+				if arg != nil {
+					arg.Walk(func(x *gen.N) { intOnly[x] = true })
+				}
+			}
+		}
+	})
+	root.Walk(func(n *gen.N) {
+		if integralNum(n) && !intOnly[n] {
 			k1 = true
 		}
 		if isCompoundHead(n) && n.Next != nil {
